@@ -191,7 +191,7 @@ def _evolve_fixed(cellular_automaton, timesteps, apply_rule, r, memoize):
         cells = array[t - 1]
         strides = _index_strides(np.arange(len(cells)), 2 * r + 1)
         neighbourhoods = cells[strides]
-        if memoize is "recursive":
+        if memoize == "recursive":
             next_state = np.zeros(len(cells), dtype=cellular_automaton.dtype)
             _step(cell_indices, cells, next_state, memo_table, apply_rule, r, t)
             array[t] = next_state
@@ -243,7 +243,7 @@ def _evolve_dynamic(cellular_automaton, timesteps, apply_rule, r, memoize):
         cells = array[-1]
         strides = _index_strides(np.arange(len(cells)), 2 * r + 1)
         neighbourhoods = cells[strides]
-        if memoize is "recursive":
+        if memoize == "recursive":
             result = np.zeros(len(cells), dtype=cellular_automaton.dtype)
             _step(cell_indices, cells, result, memo_table, apply_rule, r, t)
         elif memoize is True:
